@@ -97,6 +97,7 @@ func genProxiedRequest(r *core.Rand, id, limit int) ReqSpec {
 		h.Code = 1 + r.Intn(16)
 		h.Msg = r.PickS("backend says no", "x", "denied: quota", "a/b c", "100% sure", "a%b", "caf\u00e9 closed", "tab\there", "%", "ends in %", "100%25", "/help%2Fquota", "%41%42c", "%%", "%e2%82", "%zz%4")
 		h.Details = r.Chance(1, 2)
+		h.DetailForeign = h.Details && c.proto != "http" && h.Code%2 == 0
 	}
 	switch mi.Shape() {
 	case "unary":
@@ -391,6 +392,9 @@ func oracleProxy(mr *muxRun, rs *reqState, cnt *[core.NumCounters]int) *Violatio
 		d1, _ := anypb.New(&grpc_testing.Payload{Body: []byte("detail-" + l.RetMsg)})
 		d2, _ := anypb.New(&grpc_testing.EchoStatus{Code: int32(l.RetCode), Message: "second"})
 		want := &spb.Status{Code: int32(l.RetCode), Message: l.RetMsg, Details: []*anypb.Any{d1, d2}}
+		if sp.Handler.DetailForeign {
+			want.Details = append(want.Details, foreignDetail())
+		}
 		if !proto.Equal(&st, want) {
 			return fail("status-details-mismatch", "client saw %v, backend returned %v", &st, want)
 		}
